@@ -28,6 +28,7 @@ import EPV.Gen.RiemSetup
 import EPV.Spec.JumpRiemann
 import EPV.Model.RiemannIG
 import EPV.Tactics
+import EPV.Lemmas.Bridge.RiemannTac
 
 set_option linter.all false
 
@@ -118,23 +119,55 @@ def RCR (q : Prob) (px : ℝ) : ℝ := RiemRCR.res (toRCR q) px
 def toSetup (q : Prob) : RiemSetup.P :=
   { gl := q.gl, gr := q.gr, pl := q.pl, pr := q.pr, rl := q.rl, rr := q.rr }
 
-/-! ### unfolding lemmas (the only place that depends on the shape of the traced terms) -/
+/-! ### unfolding lemmas — the BRIDGE between the traced terms and the documented formulas
+
+These are the only lemmas of the family that see the shape of the generated terms, and they are closed
+by `riem_deep` (ring normalisation at every level, `EPV.Lemmas.Bridge.RiemannTac`), so a rewrite of the
+Python that keeps each expression the same rational function inside and outside `sqrt`/`**` leaves
+them — and therefore every property file — intact (GUIDE §8). -/
 
 theorem sound_eq (p ρ γ : ℝ) : sound p ρ γ = Real.sqrt (γ * p / ρ) := by
-  simp only [sound, epv_tree, epv_leaf]
+  simp only [sound, epv_tree, epv_leaf] <;> riem_deep
 theorem sie_eq (p ρ γ : ℝ) : sie p ρ γ = (p - 0) / (γ - 1) / ρ := by
-  simp only [sie, epv_tree, epv_leaf]
+  simp only [sie, epv_tree, epv_leaf] <;> riem_deep
 theorem shock_eq (px p ρ u γ : ℝ) :
     shock px p ρ u γ = (px - p) * Real.sqrt (2 / (γ + 1) / ρ / (px + (γ - 1) / (γ + 1) * p)) + u := by
-  simp only [shock, epv_tree, epv_leaf]
+  simp only [shock, epv_tree, epv_leaf] <;> riem_deep
 theorem rare_eq (px p ρ u γ : ℝ) :
     rare px p ρ u γ = 2 * Real.sqrt (γ * p / ρ) / (γ - 1) * (1 - (px / p) ^ ((γ - 1) / 2 / γ)) + u := by
-  simp only [rare, epv_tree, epv_leaf]
+  simp only [rare, epv_tree, epv_leaf] <;> riem_deep
 theorem rhoShock_eq (px p ρ γ : ℝ) :
     rhoShock px p ρ γ = ρ * (p * (γ - 1) + px * (γ + 1)) / (px * (γ - 1) + p * (γ + 1)) := by
-  simp only [rhoShock, epv_tree, epv_leaf]
+  simp only [rhoShock, epv_tree, epv_leaf] <;> riem_deep
 theorem rhoRare_eq (px p ρ γ : ℝ) : rhoRare px p ρ γ = ρ * (px / p) ^ (1 / γ) := by
-  simp only [rhoRare, epv_tree, epv_leaf]
+  simp only [rhoRare, epv_tree, epv_leaf] <;> riem_deep
+
+/-- the classification speeds `u_SCN … u_RCVR` of Gottlieb & Groth's Fig. 3, as `utils.py` documents them -/
+theorem uSCN_eq (q : Prob) (px : ℝ) :
+    uSCN q px = q.ul - Real.sqrt (q.gl * q.pl / q.rl) / q.gl * (px / q.pl - 1)
+      / Real.sqrt ((q.gl + 1) / 2 / q.gl * px / q.pl + (q.gl - 1) / 2 / q.gl) := by
+  simp only [uSCN, epv_tree, epv_leaf] <;> riem_deep
+theorem uNCS_eq (q : Prob) (px : ℝ) :
+    uNCS q px = q.ul - Real.sqrt (q.gr * px / q.rr) / q.gr * (q.pl / px - 1)
+      / Real.sqrt ((q.gr + 1) / 2 / q.gr * q.pl / px + (q.gr - 1) / 2 / q.gr) := by
+  simp only [uNCS, epv_tree, epv_leaf] <;> riem_deep
+theorem uNCR_eq (q : Prob) (px : ℝ) :
+    uNCR q px = q.ul + 2 * Real.sqrt (q.gr * px / q.rr) / (q.gr - 1) * (1 - (q.pl / px) ^ ((q.gr - 1) / 2 / q.gr)) := by
+  simp only [uNCR, epv_tree, epv_leaf] <;> riem_deep
+theorem uRCN_eq (q : Prob) (px : ℝ) :
+    uRCN q px = q.ul + 2 * Real.sqrt (q.gl * q.pl / q.rl) / (q.gl - 1) * (1 - (px / q.pl) ^ ((q.gl - 1) / 2 / q.gl)) := by
+  simp only [uRCN, epv_tree, epv_leaf] <;> riem_deep
+theorem uRCVR_eq (q : Prob) (px : ℝ) :
+    uRCVR q px = q.ul + 2 * Real.sqrt (q.gl * q.pl / q.rl) / (q.gl - 1) + 2 * Real.sqrt (q.gr * px / q.rr) / (q.gr - 1) := by
+  simp only [uRCVR, epv_tree, epv_leaf] <;> riem_deep
+
+/-- the constructor's bracket bound of the root search, `self.pmax = 10. * max(pl, pr)` (both leaves of the
+traced `max`, however the comparison and the product are written) -/
+theorem pmax_eq (q : Prob) : RiemSetup.pmax (toSetup q) = 10 * max q.pl q.pr := by
+  simp only [epv_tree]
+  split_ifs with h <;> simp only [epv_cond, toSetup] at h <;> simp only [epv_leaf, toSetup] <;>
+    rcases le_total q.pl q.pr with h' | h' <;> simp only [max_eq_right h', max_eq_left h'] <;>
+    first | riem_deep | linarith
 
 /-- the wave functions depend on the state velocity only additively -/
 theorem shock_u (px p ρ u γ : ℝ) : shock px p ρ u γ = shock px p ρ 0 γ + u := by
@@ -146,16 +179,16 @@ theorem rare_u (px p ρ u γ : ℝ) : rare px p ρ u γ = rare px p ρ 0 γ + u 
 `SCS_call`, `SCR_call`, `RCS_call`, `RCR_call` combine them -/
 theorem SCS_eq (q : Prob) (px : ℝ) :
     SCS q px = shock px q.pr q.rr q.ur q.gr + shock px q.pl q.rl (-q.ul) q.gl := by
-  simp only [SCS, toSCS, shock, epv_tree, epv_leaf]
+  simp only [SCS, toSCS, shock, epv_tree, epv_leaf] <;> riem_deep
 theorem SCR_eq (q : Prob) (px : ℝ) :
     SCR q px = rare px q.pr q.rr (-q.ur) q.gr - shock px q.pl q.rl (-q.ul) q.gl := by
-  simp only [SCR, toSCR, shock, rare, epv_tree, epv_leaf]
+  simp only [SCR, toSCR, shock, rare, epv_tree, epv_leaf] <;> riem_deep
 theorem RCS_eq (q : Prob) (px : ℝ) :
     RCS q px = shock px q.pr q.rr q.ur q.gr - rare px q.pl q.rl q.ul q.gl := by
-  simp only [RCS, toRCS, shock, rare, epv_tree, epv_leaf]
+  simp only [RCS, toRCS, shock, rare, epv_tree, epv_leaf] <;> riem_deep
 theorem RCR_eq (q : Prob) (px : ℝ) :
     RCR q px = rare px q.pr q.rr (-q.ur) q.gr + rare px q.pl q.rl q.ul q.gl := by
-  simp only [RCR, toRCR, rare, epv_tree, epv_leaf]
+  simp only [RCR, toRCR, rare, epv_tree, epv_leaf] <;> riem_deep
 
 /-! ### the atom `px`: `X_call px = 0` makes the two one-sided star velocities agree -/
 
@@ -217,7 +250,8 @@ theorem shockVel_left (q : Prob) (px : ℝ) :
     shockVel q px q.pl q.rl q.ul q.gl
       = q.ul + -1 * Real.sqrt (q.gl * q.pl / q.rl)
           * Real.sqrt ((q.gl + 1) * px / 2 / q.gl / q.pl + (q.gl - 1) / 2 / q.gl) := by
-  simp [shockVel, toShockVel, epv_tree, epv_cond, epv_leaf]
+  simp only [shockVel, epv_tree]
+  riem_side_split [toShockVel]
 
 /-- `shock_velocity` called on a right state that differs from the left state: sign +1 -/
 theorem shockVel_right (q : Prob) (hd : q.Distinct) (px : ℝ) :
@@ -225,10 +259,8 @@ theorem shockVel_right (q : Prob) (hd : q.Distinct) (px : ℝ) :
       = q.ur + 1 * Real.sqrt (q.gr * q.pr / q.rr)
           * Real.sqrt ((q.gr + 1) * px / 2 / q.gr / q.pr + (q.gr - 1) / 2 / q.gr) := by
   unfold Prob.Distinct at hd
-  simp only [shockVel, toShockVel, epv_tree, epv_cond, epv_leaf]
-  by_cases h0 : q.pr = q.pl <;> by_cases h1 : q.ur = q.ul <;> by_cases h2 : q.rr = q.rl
-  · exact absurd ⟨h0, h1, h2⟩ hd
-  all_goals simp [h0, h1, h2]
+  simp only [shockVel, epv_tree]
+  riem_side_split [toShockVel]
 
 /-- the degenerate case the `==` test mislabels: a right state equal to the left state is
 treated as the left state (sign -1) -/
@@ -238,7 +270,8 @@ theorem shockVel_right_degenerate (q : Prob) (hd : ¬ q.Distinct) (px : ℝ) :
           * Real.sqrt ((q.gr + 1) * px / 2 / q.gr / q.pr + (q.gr - 1) / 2 / q.gr) := by
   unfold Prob.Distinct at hd
   obtain ⟨h0, h1, h2⟩ := not_not.mp hd
-  simp [shockVel, toShockVel, epv_tree, epv_cond, epv_leaf, h0, h1, h2]
+  simp only [shockVel, epv_tree]
+  riem_side_split [toShockVel]
 
 theorem shockVel_left_mflux (q : Prob) (hq : q.Admissible) {px : ℝ} (hpx : 0 ≤ px) :
     shockVel q px q.pl q.rl q.ul q.gl = q.ul + -1 * (mflux px q.pl q.rl q.gl / q.rl) := by
@@ -311,17 +344,17 @@ def fanY (q : Prob) (p ρ u γ xd0 x t : ℝ) : ℝ :=
 
 theorem fanRho_eq (q : Prob) (p ρ u γ xd0 x t : ℝ) :
     fanRho q p ρ u γ xd0 x t = ρ * fanY q p ρ u γ xd0 x t ^ (2 / (γ - 1)) := by
-  simp only [fanRho, toFan, fanY, fanSgn, epv_tree, epv_cond, epv_leaf]
-  by_cases h0 : p = q.pl <;> by_cases h1 : u = q.ul <;> by_cases h2 : ρ = q.rl <;> simp [h0, h1, h2]
+  simp only [fanRho, fanY, fanSgn, epv_tree]
+  riem_side_split [toFan]
 theorem fanP_eq (q : Prob) (p ρ u γ xd0 x t : ℝ) :
     fanP q p ρ u γ xd0 x t = p * fanY q p ρ u γ xd0 x t ^ (2 * γ / (γ - 1)) := by
-  simp only [fanP, toFan, fanY, fanSgn, epv_tree, epv_cond, epv_leaf]
-  by_cases h0 : p = q.pl <;> by_cases h1 : u = q.ul <;> by_cases h2 : ρ = q.rl <;> simp [h0, h1, h2]
+  simp only [fanP, fanY, fanSgn, epv_tree]
+  riem_side_split [toFan]
 theorem fanU_eq (q : Prob) (p ρ u γ xd0 x t : ℝ) :
     fanU q p ρ u γ xd0 x t
       = 2 * (fanSgn q p ρ u * Real.sqrt (γ * p / ρ) + (γ - 1) * u / 2 + (x - xd0) / t) / (γ + 1) := by
-  simp only [fanU, toFan, fanSgn, epv_tree, epv_cond, epv_leaf]
-  by_cases h0 : p = q.pl <;> by_cases h1 : u = q.ul <;> by_cases h2 : ρ = q.rl <;> simp [h0, h1, h2]
+  simp only [fanU, fanSgn, epv_tree]
+  riem_side_split [toFan]
 
 theorem fanSgn_left (q : Prob) : fanSgn q q.pl q.rl q.ul = 1 := by simp [fanSgn]
 theorem fanSgn_right (q : Prob) (hd : q.Distinct) : fanSgn q q.pr q.rr q.ur = -1 := by
@@ -333,8 +366,8 @@ theorem fanSgn_sq (q : Prob) (p ρ u : ℝ) : fanSgn q p ρ u = 1 ∨ fanSgn q p
 theorem shockVel_eq (q : Prob) (px p ρ u γ : ℝ) :
     shockVel q px p ρ u γ
       = u + -fanSgn q p ρ u * Real.sqrt (γ * p / ρ) * Real.sqrt ((γ + 1) * px / 2 / γ / p + (γ - 1) / 2 / γ) := by
-  simp only [shockVel, toShockVel, fanSgn, epv_tree, epv_cond, epv_leaf]
-  by_cases h0 : p = q.pl <;> by_cases h1 : u = q.ul <;> by_cases h2 : ρ = q.rl <;> simp [h0, h1, h2]
+  simp only [shockVel, fanSgn, epv_tree]
+  riem_side_split [toShockVel]
 
 /-! ### the hand model `EPV.Model.RiemannIG` over ℝ
 
@@ -375,24 +408,28 @@ theorem m_rhoRare (px p ρ γ : ℝ) : RiemannIG.rhoStarRarefaction px p ρ γ =
 
 theorem m_shockVel (q : Prob) (px p ρ u γ : ℝ) :
     RiemannIG.shockVelocity (toData q) px p ρ u γ = shockVel q px p ρ u γ := by
-  simp only [RiemannIG.shockVelocity, RiemannIG.isLeft, RiemannIG.soundSpeed, toData, shockVel, toShockVel,
-    epv_tree, epv_cond, epv_leaf, num_ofNat, num_sqrt, num_beq]
+  rw [shockVel_eq]
+  simp only [RiemannIG.shockVelocity, RiemannIG.isLeft, RiemannIG.soundSpeed, toData, fanSgn,
+    num_ofNat, num_sqrt, num_beq]
   by_cases h0 : p = q.pl <;> by_cases h1 : u = q.ul <;> by_cases h2 : ρ = q.rl <;> simp [h0, h1, h2]
 
 theorem m_fanP (q : Prob) (p ρ u γ x xd0 t : ℝ) :
     (RiemannIG.fanState (toData q) p ρ u γ x xd0 t).p = fanP q p ρ u γ xd0 x t := by
-  simp only [RiemannIG.fanState, RiemannIG.isLeft, RiemannIG.soundSpeed, toData, fanP, toFan,
-    epv_tree, epv_cond, epv_leaf, num_ofNat, num_sqrt, num_beq, num_pow]
+  rw [fanP_eq]
+  simp only [RiemannIG.fanState, RiemannIG.isLeft, RiemannIG.soundSpeed, toData, fanY, fanSgn,
+    num_ofNat, num_sqrt, num_beq, num_pow]
   by_cases h0 : p = q.pl <;> by_cases h1 : u = q.ul <;> by_cases h2 : ρ = q.rl <;> simp [h0, h1, h2]
 theorem m_fanRho (q : Prob) (p ρ u γ x xd0 t : ℝ) :
     (RiemannIG.fanState (toData q) p ρ u γ x xd0 t).r = fanRho q p ρ u γ xd0 x t := by
-  simp only [RiemannIG.fanState, RiemannIG.isLeft, RiemannIG.soundSpeed, toData, fanRho, toFan,
-    epv_tree, epv_cond, epv_leaf, num_ofNat, num_sqrt, num_beq, num_pow]
+  rw [fanRho_eq]
+  simp only [RiemannIG.fanState, RiemannIG.isLeft, RiemannIG.soundSpeed, toData, fanY, fanSgn,
+    num_ofNat, num_sqrt, num_beq, num_pow]
   by_cases h0 : p = q.pl <;> by_cases h1 : u = q.ul <;> by_cases h2 : ρ = q.rl <;> simp [h0, h1, h2]
 theorem m_fanU (q : Prob) (p ρ u γ x xd0 t : ℝ) :
     (RiemannIG.fanState (toData q) p ρ u γ x xd0 t).u = fanU q p ρ u γ xd0 x t := by
-  simp only [RiemannIG.fanState, RiemannIG.isLeft, RiemannIG.soundSpeed, toData, fanU, toFan,
-    epv_tree, epv_cond, epv_leaf, num_ofNat, num_sqrt, num_beq, num_pow]
+  rw [fanU_eq]
+  simp only [RiemannIG.fanState, RiemannIG.isLeft, RiemannIG.soundSpeed, toData, fanSgn,
+    num_ofNat, num_sqrt, num_beq, num_pow]
   by_cases h0 : p = q.pl <;> by_cases h1 : u = q.ul <;> by_cases h2 : ρ = q.rl <;> simp [h0, h1, h2]
 theorem m_fanE (q : Prob) (p ρ u γ x xd0 t : ℝ) :
     (RiemannIG.fanState (toData q) p ρ u γ x xd0 t).e
@@ -400,19 +437,19 @@ theorem m_fanE (q : Prob) (p ρ u γ x xd0 t : ℝ) :
   rw [← m_fanP, ← m_fanRho, ← m_sie]; rfl
 
 theorem m_uSCN (q : Prob) (px : ℝ) : RiemannIG.uSCN (toData q) px = uSCN q px := by
-  simp only [RiemannIG.uSCN, RiemannIG.soundSpeed, toData, uSCN, epv_tree, epv_leaf, num_ofNat, num_sqrt]
+  simp only [RiemannIG.uSCN, RiemannIG.soundSpeed, toData, uSCN_eq, num_ofNat, num_sqrt]
   norm_num
 theorem m_uNCS (q : Prob) (px : ℝ) : RiemannIG.uNCS (toData q) px = uNCS q px := by
-  simp only [RiemannIG.uNCS, RiemannIG.soundSpeed, toData, uNCS, epv_tree, epv_leaf, num_ofNat, num_sqrt]
+  simp only [RiemannIG.uNCS, RiemannIG.soundSpeed, toData, uNCS_eq, num_ofNat, num_sqrt]
   norm_num
 theorem m_uNCR (q : Prob) (px : ℝ) : RiemannIG.uNCR (toData q) px = uNCR q px := by
-  simp only [RiemannIG.uNCR, RiemannIG.soundSpeed, toData, uNCR, epv_tree, epv_leaf, num_ofNat, num_sqrt, num_pow]
+  simp only [RiemannIG.uNCR, RiemannIG.soundSpeed, toData, uNCR_eq, num_ofNat, num_sqrt, num_pow]
   norm_num
 theorem m_uRCN (q : Prob) (px : ℝ) : RiemannIG.uRCN (toData q) px = uRCN q px := by
-  simp only [RiemannIG.uRCN, RiemannIG.soundSpeed, toData, uRCN, epv_tree, epv_leaf, num_ofNat, num_sqrt, num_pow]
+  simp only [RiemannIG.uRCN, RiemannIG.soundSpeed, toData, uRCN_eq, num_ofNat, num_sqrt, num_pow]
   norm_num
 theorem m_uRCVR (q : Prob) (px : ℝ) : RiemannIG.uRCVR (toData q) px = uRCVR q px := by
-  simp only [RiemannIG.uRCVR, RiemannIG.soundSpeed, toData, uRCVR, epv_tree, epv_leaf, num_ofNat, num_sqrt]
+  simp only [RiemannIG.uRCVR, RiemannIG.soundSpeed, toData, uRCVR_eq, num_ofNat, num_sqrt]
   norm_num
 
 /-! ### the model's star states and region speeds in terms of the generated helpers -/
